@@ -229,6 +229,9 @@ var frameInfo = map[string]string{
 	"sample_bin.RootPacket": "frame len=PayloadLen body=Payload cksum=Checksum alg=crc32",
 }
 
+// hand-written example types of the sample package: a self-contained big-endian format
+var handWritten = map[string]string{"sample_bin.RiskControlRequest": "BE", "sample_bin.SubOrder": "BE"}
+
 var protoOrder = map[string]string{"sse_bin": "BE", "szse_bin": "BE", "risk_bin": "BE", "bjse_trade_bin": "LE", "sample_bin": "LE"}
 var protoName = map[string]string{"sse_bin": "sse_bin_v0.57", "szse_bin": "szse_bin_v1.29", "risk_bin": "risk_v0.1.0", "bjse_trade_bin": "bjse_trade_bin_v0.9", "sample_bin": "sample"}
 
@@ -279,6 +282,9 @@ func (V *Verifier) Bootstrap(outDir string) error {
 			enc := V.EncodeOK(mt, nil)
 			tp := V.fieldPrinter(enc)
 			hdr := fmt.Sprintf("proto %s, %s", protoName[pkgName], protoOrder[pkgName])
+			if o, ok := handWritten[mt.Name]; ok {
+				hdr = fmt.Sprintf("proto %s, %s", "sample_handwritten", o)
+			}
 			if fi, ok := frameInfo[mt.Name]; ok {
 				hdr += ", " + fi
 			}
